@@ -41,7 +41,13 @@ func PackSize(format string) (uint, error) {
 			_ = s.align(0) && s.inc(1)
 		case 'X':
 			s.alignOnly = true
-		case 's', 'z':
+		case 's':
+			if s.alignOnly {
+				_ = s.smallOptSize(8) && s.align(s.optSize)
+			} else {
+				s.err = errVariableLength
+			}
+		case 'z':
 			s.err = errVariableLength
 		default:
 			s.err = errBadFormatString(c)
